@@ -81,6 +81,11 @@ Theorem C13_engine_writes_closed :
   Chain.MutatorsExpected.durable_writers Gen.Mutators.found_sites = Chain.MutatorsExpected.expected_durable.
 Proof. vm_compute. split; reflexivity. Qed.
 
+Theorem C13_no_database_as_writer_argument :
+  Gen.Mutators.found_writer_args = Chain.MutatorsExpected.expected_writer_args /\
+  existsb Chain.MutatorsExpected.writer_arg_is_database Gen.Mutators.found_writer_args = false.
+Proof. vm_compute. split; reflexivity. Qed.
+
 (* non-vacuity: a consistent genesis database and a history add, add, delete, rejected add *)
 Definition ex_genesis : db := fun k =>
   match k with KHeader 100 => Some 0 | KIdx 0 => Some 100 | KTipMark => Some 0 | KFin => Some 0 | KDiff 0 => Some 7 | _ => None end.
